@@ -33,6 +33,10 @@ Guards (what keeps the oracle from demanding more than the property):
   objects (no lazy load is triggered by the monitor).
 * a statement that raises the same exception class on all three engines is an error case
   (counted, not a violation); only a *difference* between cache states is reported.
+* the *names* of anonymous bind parameters ("id_1" vs "param_2") are derived from context and are
+  deliberately not part of the cache key (their position is); K and P compare SQL and parameters with
+  those names canonicalised by order of appearance.  Explicitly named binds keep their names.  (X sees
+  SQLite's qmark style, where no names exist.)
 * documented compile errors (CompileError etc.) are part of the compared signature: the
   same error class on both members of a key group is agreement.
 * perturbed statements may be ill-typed (column order swapped in INSERT..SELECT, CAST type
@@ -60,13 +64,44 @@ META = {
 }
 
 
+def _namemap(c):
+    """bind name -> canonical token.  The *names* of anonymous (unique) bind parameters are derived from
+    their context ("id_1", "param_2") and are deliberately not part of the cache key (only their position
+    is); they are canonicalised by order of appearance.  Explicitly named binds keep their name."""
+    m = {}
+    k = 0
+    for bp, name in c.bind_names.items():
+        if getattr(bp, "_anon_map_key", None) is not None or bp.unique:  # what BindParameter._gen_cache_key anonymises
+            k += 1
+            m[name] = "\u00a7%d" % k
+        else:
+            m[name] = name
+    return m
+
+
+def _norm_sql(sql, m):
+    import re
+
+    names = sorted((n for n, t in m.items() if n != t), key=len, reverse=True)
+    if not names:
+        return sql
+    rx = re.compile(r"(?:(?<=POSTCOMPILE_)|(?<![A-Za-z0-9_]))(" + "|".join(map(re.escape, names)) + r")(?![A-Za-z0-9_])")
+    return rx.sub(lambda mo: m[mo.group(1)], sql)
+
+
+def _norm_params(params, m):
+    return {m.get(k, k): v for k, v in params.items()}
+
+
 def _bindsig(c):
     out = []
+    m = _namemap(c)
     for bp, name in c.bind_names.items():
+        name = m[name]
         out.append((name, type(bp.type).__name__, bool(bp.expanding), bool(bp.literal_execute),
                     bp in c.literal_execute_params, bp in c.post_compile_params))
     rc = tuple(r.keyname for r in (c._result_columns or ()))
-    return (tuple(out), tuple(c.positiontup or ()), rc)
+    return (tuple(out), tuple(m.get(n, n) for n in (c.positiontup or ())), rc)
 
 
 def _spec_diff(a, b, path=()):
@@ -97,7 +132,7 @@ def _mech_from_diff(sa_, sb):
     d = _spec_diff(sa_, sb)
     if d is None:
         return "literal-values-only"
-    parts = [str(p) for p in d if not str(p).isdigit() and not str(p).startswith("arg")]
+    parts = [str(p) for p in d if str(p).isidentifier() and not str(p).startswith("arg")]  # attribute names only
     return ".".join(parts[-3:]) or "root"
 
 
@@ -160,8 +195,9 @@ def part_keys(ctx, env, G):
             for dn, d in ds.items():
                 try:
                     c = stmt.compile(dialect=d)
-                    sig[dn] = (str(c), _bindsig(c))
-                    refparams[dn] = c.construct_params(escape_names=False)
+                    m = _namemap(c)
+                    sig[dn] = (_norm_sql(str(c), m), _bindsig(c))
+                    refparams[dn] = _norm_params(c.construct_params(escape_names=False), m)
                 except (sa_exc.SQLAlchemyError, NotImplementedError) as e:
                     sig[dn] = ("EXC", type(e).__name__)
             ctx.count("uncached_compiles", len(ds))
@@ -207,8 +243,9 @@ def part_keys(ctx, env, G):
                 try:
                     compiled, extracted, param_dict, hit = stmt._compile_w_cache(
                         d, compiled_cache=caches[dn], column_keys=[], for_executemany=False, schema_translate_map=None)
-                    got = compiled.construct_params(extracted_parameters=extracted, escape_names=False,
-                                                    _collected_params=param_dict)
+                    mc = _namemap(compiled)
+                    got = _norm_params(compiled.construct_params(extracted_parameters=extracted, escape_names=False,
+                                                                 _collected_params=param_dict), mc)
                 except (sa_exc.SQLAlchemyError, NotImplementedError) as e:
                     ctx.violation("cached-compile-raises-uncached-does-not:" + type(e).__name__,
                                   f"{dn}: uncached compile succeeded, cached path raised {e!r}", {"spec": sp, "dialect": dn})
@@ -219,9 +256,10 @@ def part_keys(ctx, env, G):
                     # execution-time parameters for the explicitly named binds, other literals still
                     # have to come from *this* statement
                     over = {sorted(b.named)[0]: 4242}
-                    got2 = compiled.construct_params(dict(over), extracted_parameters=extracted, escape_names=False,
-                                                     _collected_params=param_dict)
-                    ref2 = stmt.compile(dialect=d).construct_params(dict(over), escape_names=False)
+                    got2 = _norm_params(compiled.construct_params(dict(over), extracted_parameters=extracted, escape_names=False,
+                                                                  _collected_params=param_dict), mc)
+                    c2 = stmt.compile(dialect=d)
+                    ref2 = _norm_params(c2.construct_params(dict(over), escape_names=False), _namemap(c2))
                     ctx.count("cached_param_checks_with_exec_params")
                     if got2 != ref2 and got == refparams[dn]:
                         ctx.violation(
@@ -231,10 +269,11 @@ def part_keys(ctx, env, G):
                 if is_hit:
                     ctx.count("cached_param_checks_on_hit")
                     nontrivial = nontrivial or bool(values)
-                if str(compiled) != sig[dn][0]:
+                cached_sql = _norm_sql(str(compiled), mc)
+                if cached_sql != sig[dn][0]:
                     ctx.violation(
                         "cached-sql-differs-from-own-sql:" + ("hit" if is_hit else "miss"),
-                        f"{dn}: cached Compiled string {str(compiled)!r} != uncached {sig[dn][0]!r}",
+                        f"{dn}: cached Compiled string {cached_sql!r} != uncached {sig[dn][0]!r}",
                         {"spec": sp, "dialect": dn, "hit": is_hit})
                 elif got != refparams[dn]:
                     bad = sorted(k for k in set(got) | set(refparams[dn]) if got.get(k, "<missing>") != refparams[dn].get(k, "<missing>"))
